@@ -114,16 +114,10 @@ func bfs(r *fw.R, name string, depth int, deadline time.Time) {
 		}
 		return true
 	}
+	// phase 1: from the empty path over the whole alphabet to the depth bound
 	var frontier []node
 	if visit(nil, nil) {
 		frontier = append(frontier, node{})
-	}
-	for si, s := range shapes {
-		d := snap(s.Real().Data())
-		r.Transitions++
-		if visit(d, []int{-si - 1}) {
-			frontier = append(frontier, node{d, []int{-si - 1}})
-		}
 	}
 	for lvl := 1; lvl <= depth; lvl++ {
 		var next []node
@@ -137,16 +131,32 @@ func bfs(r *fw.R, name string, depth int, deadline time.Time) {
 				p := c.Real(canvas.NewPathFromData(snap(n.data)))
 				r.Transitions++
 				d := p.Data()
-				var h []int
-				if visit(d, append(append([]int{}, n.hist...), ci)) {
-					if lvl < depth {
-						h = append(append([]int{}, n.hist...), ci)
-						next = append(next, node{snap(d), h})
-					}
+				h := append(append([]int{}, n.hist...), ci)
+				if visit(d, h) && lvl < depth {
+					next = append(next, node{snap(d), h})
 				}
 			}
 		}
-		r.Count(fmt.Sprintf("graph: new distinct states at level %d", lvl), int64(len(seen)))
+		r.Count(fmt.Sprintf("graph: distinct states up to level %d", lvl), int64(len(seen)))
 		frontier = next
 	}
+	// phase 2: every shape constructor followed by up to depth-2 calls (as in the families);
+	// the tree is small, so it is walked without pruning and only counted through seen
+	var walk func(d []float64, h []int, left int)
+	walk = func(d []float64, h []int, left int) {
+		visit(d, h)
+		if left == 0 {
+			return
+		}
+		for ci, c := range alpha {
+			p := c.Real(canvas.NewPathFromData(snap(d)))
+			r.Transitions++
+			walk(snap(p.Data()), append(append([]int{}, h...), ci), left-1)
+		}
+	}
+	for si, s := range shapes {
+		r.Transitions++
+		walk(snap(s.Real().Data()), []int{-si - 1}, depth-2)
+	}
+	r.Count("graph: distinct states including shape sources", int64(len(seen)))
 }
